@@ -37,10 +37,10 @@ def _cfgs(tier):
 def gen_cases(tier, seed):
     cases = []
 
-    def add(pattern, n, t0, wa, step, samples, models='bias', form='list', with_inc=False):
+    def add(pattern, n, t0, wa, step, samples, models='bias', form='list', with_inc=False, rerun=False):
         cases.append(dict(pattern=pattern, n=n, t0=t0, wa=wa, step=step,
                           samples=[list(s) for s in samples], models=models, form=form,
-                          with_inc=with_inc))
+                          with_inc=with_inc, rerun=rerun))
 
     m_main = 2
     subsets3 = list(schedx.subsets_upto(3, m_main))
@@ -55,6 +55,20 @@ def gen_cases(tier, seed):
         if tier == 'quick' and not (wa and step in ('half', 'onehalf')):
             continue
         for s in clusters:
+            add(pattern, 3, 0.0, wa, step, s)
+    # second run with the same measurement / model objects (objects must not remember a previous run)
+    for pattern, step, wa in _cfgs(tier):
+        if tier == 'quick' and not (wa and step in ('half', 'onehalf')):
+            continue
+        for s in subsets3:
+            if len(s) == 2 and (tier == 'thorough' or s[0][1] == s[1][1]) or len(s) == 1:
+                add(pattern, 3, 0.0, wa, step, s, rerun=True)
+    # near-coincident epochs (0.24 microseconds apart), same and different sensors
+    twins = schedx.twin_family(3)
+    for pattern, step, wa in _cfgs(tier):
+        if tier == 'quick' and not (wa and step in ('equal', 'onehalf')):
+            continue
+        for s in twins:
             add(pattern, 3, 0.0, wa, step, s)
     # defaults and model variants on the empty and the single-sample schedules
     singles = list(schedx.subsets_upto(3, 1))
